@@ -401,8 +401,15 @@ func (r *CPUSuppress) adjustByCPUSet(cpusetQuantity *resource.Quantity, nodeCPUI
 	if cpus-int32(len(oldCPUSet)) > beMaxIncreaseCpuNum {
 		cpus = int32(len(oldCPUSet)) + beMaxIncreaseCpuNum
 	}
+	// the BE cpuset can only be taken from the CPUs that are not protected (LSE-owned, node-reserved or
+	// system-QoS exclusive): without any such CPU there is nothing to apply (and the split below would divide by zero).
+	eligibleCPUNum := len(lsrCpus) + len(lsCpus)
+	if eligibleCPUNum == 0 {
+		klog.Warningf("suppressBECPU failed to adjust be cpuset, no cpu is eligible for BE: every cpu is LSE-owned, node-reserved or system-QoS exclusive")
+		return
+	}
 	var beCPUSet []int32
-	lsrCpuNums := int32(int(cpus) * len(lsrCpus) / (len(lsrCpus) + len(lsCpus)))
+	lsrCpuNums := int32(int(cpus) * len(lsrCpus) / eligibleCPUNum)
 
 	if lsrCpuNums > 0 {
 		beCPUSetFromLSR := calculateBESuppressCPUSetPolicy(lsrCpuNums, lsrCpus)
